@@ -97,8 +97,8 @@ def run(ctx):
     drv = TC.get_driver(ctx)
     if drv is None:
         return
-    n = 336 if ctx.quick else 2400
-    cap = 250 if ctx.quick else 4000
+    n = 336 if ctx.quick else 1800
+    cap = 250 if ctx.quick else 1500
     scripts = TC.corpus_scripts("C11")
     for i in range(n):
         logic = LOGIC_CYCLE[i % len(LOGIC_CYCLE)]
